@@ -14,12 +14,12 @@ import (
 // C10 — truncated or corrupted streams are never read as different valid data.
 
 type c10Stream struct {
-	bam   bool
-	img   []byte
-	flat  *Flat
-	hdr   HdrSpec
-	recs  []RecSpec
-	recAt []int // offset of each record in the uncompressed stream (bam), plus the end
+	bam    bool
+	img    []byte
+	flat   *Flat
+	hdr    HdrSpec
+	recs   []RecSpec
+	recAt  []int // offset of each record in the uncompressed stream (bam), plus the end
 	nval   int   // substitution values per position
 	count  int   // enumerated faults of this stream
 	first  int   // first run index of this stream
